@@ -276,6 +276,11 @@ def run(ctx):
     ctx.check(vals == [4, 16], 'L5', 'XfrmAddress.to_ipaddr reads 4 octets for AF_INET and 16 otherwise', key=('L5', 'to-ipaddr'),
               site=ctx.site(ta, ta.node), detail={'returned': tq.text(r)})
 
+    # the selector octets of a negotiated CHILD_SA come from TrafficSelector.get_network() / get_port(): the network that covers the
+    # negotiated range and the kernel's port convention
+    from .c12 import ts_kernel_view
+    ts_kernel_view(ctx, 'L3')
+
     # ---------------------------------------------------------------- L4
     check_framing(ctx, sizes)
 
@@ -398,7 +403,7 @@ def check_delete_flush(ctx):
                   detail={'payload': tq.text(pl)})
 
 
-def check_algo(ctx):
+def check_algo(ctx, rule='L3'):
     fi = ctx.func('xfrm.XfrmAlgo.build')
     S = ctx.sval(fi)
     ps = fi.call_params()
@@ -410,8 +415,8 @@ def check_algo(ctx):
             and tq.match(S.expr('create_byte_array(%s, 64)' % ps[0]), kw['alg_name']) is not None \
             and tq.match(S.expr('create_byte_array(%s, 64)' % ps[1]), kw['key']) is not None \
             and common.term_table(ctx, kw['alg_key_len'], [{ps[1]: b'k' * 16}, {ps[1]: b'k' * 20}], None) == [128, 160]
-    ctx.check(ok, 'L3', 'XfrmAlgo.build: zero-padded 64-octet name, key length in bits, key bytes at the start of the key array',
-              key=('L3', 'algo-build'), site=ctx.site(fi, fi.node), detail={'returned': tq.text(r, 400)})
+    ctx.check(ok, rule, 'XfrmAlgo.build: zero-padded 64-octet name, key length in bits, key bytes at the start of the key array',
+              key=(rule, 'algo-build'), site=ctx.site(fi, fi.node), detail={'returned': tq.text(r, 400)})
     cb = ctx.prog.functions.get('xfrm.create_byte_array')
     ctx.require(cb is not None, 'anchor vanished: create_byte_array')
     B = ctx.sval(cb)
@@ -423,8 +428,8 @@ def check_algo(ctx):
         ok = ty[0] == 'bin' and ty[1] == '*' and ('global', 'ctypes.c_ubyte') in ty[2:]
         n = [x for x in ty[2:] if x != ('global', 'ctypes.c_ubyte')]
         ok = ok and len(n) == 1 and common.term_table(ctx, n[0], [{cps[0]: b'abc', cps[1]: None}, {cps[0]: b'abc', cps[1]: 64}], None) == [3, 64]
-    ctx.check(ok, 'L3', 'create_byte_array copies the bytes into an array of the given size (zero filled; the data length by default)',
-              key=('L3', 'byte-array'), site=ctx.site(cb, cb.node), detail={'returned': tq.text(r)})
+    ctx.check(ok, rule, 'create_byte_array copies the bytes into an array of the given size (zero filled; the data length by default)',
+              key=(rule, 'byte-array'), site=ctx.site(cb, cb.node), detail={'returned': tq.text(r)})
 
 
 WIN = ('acc', '<window>', 0)      # the unconsumed rest of a buffer that a loop walks
